@@ -28,6 +28,15 @@ func (i *interpreter) lockOf(p *value) *lockInfo {
 	return li
 }
 
+func (i *interpreter) anyLockHeld() bool {
+	for _, li := range i.locks {
+		if li.writer || li.readers > 0 {
+			return true
+		}
+	}
+	return false
+}
+
 func fatalErr(msg string) runtimeErr { return runtimeErr("fatal error: " + msg) }
 
 func init() {
@@ -116,6 +125,10 @@ func init() {
 		if fr.i.atomicHook != nil {
 			fr.i.atomicHook(fr, p, false)
 		}
+		if fr.i.atomicLoaded == nil {
+			fr.i.atomicLoaded = map[*value]int{}
+		}
+		fr.i.atomicLoaded[p] = fr.i.callEpoch
 		return *p
 	}
 	atomicStore := func(fr *frame, a []value) value {
@@ -126,6 +139,12 @@ func init() {
 		fr.i.atomicOps++
 		if fr.i.atomicHook != nil {
 			fr.i.atomicHook(fr, p, true)
+		}
+		// a value read with an atomic load and written back with an atomic store, in one function
+		// and outside any lock: two goroutines doing so lose one update (needs compare-and-swap)
+		// (within one operation of the code under test)
+		if ep, ok := fr.i.atomicLoaded[p]; ok && ep == fr.i.callEpoch && !fr.i.anyLockHeld() && len(fr.i.guards) > 0 {
+			fr.i.discipline("atomic-rmw", "C11: a word is read with an atomic load and written back with an atomic store (read-modify-write without compare-and-swap: concurrent updates are lost)", fr)
 		}
 		*p = a[1]
 		return nil
